@@ -51,11 +51,12 @@ type altLine struct {
 }
 
 type beh struct {
-	Sc    scn       `json:"sc"`
-	Log   []logLine `json:"log"`
-	Alt   []altLine `json:"alt"`
-	Nx    int       `json:"nx"`
-	Depth int       `json:"depth"`
+	Sc    scn            `json:"sc"`
+	Log   []logLine      `json:"log"`
+	Alt   []altLine      `json:"alt"`
+	Cnt   map[string]int `json:"cnt"`
+	Nx    int            `json:"nx"`
+	Depth int            `json:"depth"`
 }
 
 // paramTypes are the parameter types as the callee sees them (PT of the model).
